@@ -24,25 +24,32 @@ def addImplicit (S : Schema) (cx : Cx) (sibs : List DNode) (n : DNode) : List DN
   let idx := insertedAt sibs sibs'
   (sibs', Out.ofEvs [{ op := .create, anc := cx.anc, node := n, anchor := userordAnchor S sibs' idx n, src := .implicit }])
 
+/-- all default instances of a leaf-list, in the order of the `default` statements -/
+def implLeafList (S : Schema) (cx : Cx) (sid : Nat) : List Bytes → List DNode × Out → List DNode × Out
+  | [], acc => acc
+  | d :: ds, acc =>
+    let r := addImplicit S cx acc.1 (.term sid dfltFlags [] d)
+    implLeafList S cx sid ds (r.1, acc.2 ++ r.2)
+
+/-- one non-choice schema node of a level: a default non-presence container, leaf or leaf-list when there is no instance -/
+def implNode (S : Schema) (o : VOpts) (cx : Cx) (k : STree) (sibs : List DNode) : List DNode × Out :=
+  let i := k.info
+  if i.kind == .choice || (o.noState && !i.config) || hasInst sibs k.sid then (sibs, {})
+  else
+    match i.kind with
+    | .container => if i.presence then (sibs, {}) else addImplicit S cx sibs (.inner k.sid dfltFlags [] [])
+    | .leaf =>
+      match i.dflts with
+      | d :: _ => addImplicit S cx sibs (.term k.sid dfltFlags [] d)
+      | [] => (sibs, {})
+    | .leaflist => implLeafList S cx k.sid i.dflts (sibs, {})
+    | _ => (sibs, {})
+
 /-- the non-choice schema nodes of a level -/
 def implNodes (S : Schema) (o : VOpts) (cx : Cx) : List STree → List DNode → List DNode × Out
   | [], sibs => (sibs, {})
   | k :: ks, sibs =>
-    let i := k.info
-    let r1 : List DNode × Out :=
-      if i.kind == .choice || (o.noState && !i.config) || hasInst sibs k.sid then (sibs, {})
-      else
-        match i.kind with
-        | .container => if i.presence then (sibs, {}) else addImplicit S cx sibs (.inner k.sid dfltFlags [] [])
-        | .leaf =>
-          match i.dflts with
-          | d :: _ => addImplicit S cx sibs (.term k.sid dfltFlags [] d)
-          | [] => (sibs, {})
-        | .leaflist =>
-          i.dflts.foldl (fun (acc : List DNode × Out) d =>
-            let r := addImplicit S cx acc.1 (.term k.sid dfltFlags [] d)
-            (r.1, acc.2 ++ r.2)) (sibs, {})
-        | _ => (sibs, {})
+    let r1 := implNode S o cx k sibs
     let r2 := implNodes S o cx ks r1.1
     (r2.1, r1.2 ++ r2.2)
 
